@@ -165,6 +165,10 @@ def analyse_string_position(position, expose, tally, timeout_ms=60000):
                 res["findings"].append(("raise", _model_str(m, s), "code generation raises %s" % p.outcome.exc_name))
             continue
         text = p.outcome.value
+        tmpl = [n for n in p.notes if n.startswith("format-template:")]
+        if tmpl:
+            res["findings"].append(("inject", "{0.__class__.__mro__}%(x)s${y}", "text containing the literal is used as a format template: " + tmpl[0][17:]))
+            continue
         if isinstance(text, str):
             res["findings"].append(("dropped", "x", "the literal does not appear in the generated code"))
             continue
